@@ -57,7 +57,29 @@ func Resume() {
 
 var pausedDepth int
 
+// Owner check: while an owner goroutine is set, every 2048th yield verifies
+// that it arrives on that goroutine. A yield from any other goroutine means
+// the library runs goroutines of its own; the simulator then does not control
+// the schedule (C20 stage A is reported as not run for that scenario).
+var (
+	ownerGID    uint64
+	ownerSample uint32
+	foreignSeen bool
+)
+
+func SetOwner(gid uint64)  { ownerGID = gid }
+func CurrentGID() uint64   { return curGID() }
+func ForeignSeen() bool    { return foreignSeen }
+func ClearForeign()        { foreignSeen = false }
+
 func hook(site int) {
+	if ownerGID != 0 {
+		ownerSample++
+		if ownerSample&2047 == 0 && curGID() != ownerGID {
+			foreignSeen = true
+			return
+		}
+	}
 	if pausedDepth > 0 {
 		return
 	}
